@@ -62,6 +62,10 @@ pub fn make_issuer(dn: &DnSpec, key_id: &KeyIdSpec, key_usages: &[u8], key: KeyP
     st.key_id = key_id.clone();
     st.key_usages = key_usages.to_vec();
     st.is_ca = IsCaSpec::Unconstrained;
+    // an issuer shares no default with its subjects: whatever is wrongly taken from the issuer shows
+    st.not_before = TimeSpec::ymdhms(2001, 2, 3, 4, 5, 6);
+    st.not_after = TimeSpec::ymdhms(2061, 7, 8, 9, 10, 11);
+    st.sans = vec![SanSpec::Dns("issuer-only.example".into())];
     let params = to_params(&st)?;
     let cert = guarded(|| params.self_signed(&key)).map_err(|p| format!("issuer generation panicked: {}", p))?.map_err(|e| format!("issuer generation failed: {}", e))?;
     Ok(IssuerReal { spec: IssuerSpec { dn: dn.clone(), key_id: key_id.clone(), key: key_pub, key_usages: key_usages.to_vec() }, cert, key })
